@@ -59,7 +59,8 @@ def required(tier):
   return {'C18.constructor-identity': 400, 'C18.set_params-identity': 400,
           'C18.sequence-model': 60 if q else 800,
           'C18.alias-maps': 9, 'C18.alias-one-warning': 9,
-          'C18.unfitted-raises': 100, 'C18.clone-same-model': 12,
+          'C18.unfitted-raises': 100, 'C18.clone-same-model': 24,
+          'C18.params-untouched-by-fit': 12,
           'C18.pickle-bitwise': 15}
 
 
@@ -217,10 +218,23 @@ def run_case(spec, j):
     ds = common.dataset(dss)
     cfgs = [c for c in configs.light(name, ds['d'], ds['classes'])
             if not c.get('diagonal')]
-    s = {'est': name, 'params': cfgs[rep % len(cfgs)], 'ds': dss,
+    cfg = dict(cfgs[rep % len(cfgs)])
+    if rep == 1:
+      # array-valued options: "stored untouched" must survive fit
+      arr = {'LMNN': {'init': '@randn'}, 'NCA': {'init': '@randn'},
+             'MLKR': {'init': '@randn'}, 'ITML': {'prior': '@spd'},
+             'ITML_Supervised': {'prior': '@spd'}, 'LSML': {'prior': '@spd'},
+             'LSML_Supervised': {'prior': '@spd'}, 'SDML': {'prior': '@spd'},
+             'SDML_Supervised': {'prior': '@spd'}, 'MMC': {'init': '@spd'},
+             'MMC_Supervised': {'init': '@spd'}, 'SCML': {'basis': '@basis'},
+             'SCML_Supervised': {'basis': '@basis'}}.get(name)
+      if arr:
+        cfg = dict(arr)
+    s = {'est': name, 'params': cfg, 'ds': dss,
          'seed': int(rng.randint(1000))}
-    f = common.build(s, ds)
+    f = common.build(s, ds, preprocessor='array' if rep == 1 else None)
     c = clone(f.est)
+    params_before = fp_map(f.est.get_params(deep=False))
     with Quiet():
       try:
         api.set_judge(j, well_formed=True)
@@ -235,6 +249,21 @@ def run_case(spec, j):
     Ma, Mb = f.est.get_mahalanobis_matrix(), c.get_mahalanobis_matrix()
     j.close('C18.clone-same-model', Mb, Ma,
             1e-9 * max(np.abs(Ma).max(), 1e-300), dict(det0, params=s['params']))
+    changed = fp_diff(params_before, fp_map(f.est.get_params(deep=False)))
+    j.check('C18.params-untouched-by-fit', not changed,
+            dict(det0, params=s['params'], changed=changed))
+    # a clone taken *after* fitting is an unfitted estimator that behaves
+    # identically when fitted
+    c2 = clone(f.est)
+    with Quiet():
+      try:
+        c2.fit(*f.args, **f.kwargs)
+        j.close('C18.clone-same-model', c2.get_mahalanobis_matrix(), Ma,
+                1e-9 * max(np.abs(Ma).max(), 1e-300),
+                dict(det0, params=s['params'], clone='after fit'))
+      except Exception as ex:
+        j.violated('C18.clone-same-model',
+                   dict(det0, clone='after fit', raised=repr(ex)[:200]))
     e2 = pickle.loads(pickle.dumps(f.est))
     Xq = np.asarray(ds['X'], dtype=float)
     Q = Xq[rng.randint(0, len(Xq), size=(8, 2))]
